@@ -198,6 +198,7 @@ func (b *c18Base) run(j *c18Job, rep *kernel.Report) (*Fail, error) {
 		return nil, err
 	}
 	rep.Eval(int64(len(qs)))
+	var silent *Fail
 	var pc struct {
 		Violations []string `json:"violations"`
 		Released   int      `json:"released"`
@@ -261,6 +262,17 @@ func (b *c18Base) run(j *c18Job, rep *kernel.Report) (*Fail, error) {
 				}
 			}
 		}
+		// a row of the damaged segment that the query should return may only be missing if the answer reports an error
+		if c18Checksummed(j.File) && r.Err == "" && len(r.Errors) == 0 {
+			for id := range wantIDs {
+				if b.seg1IDs[id] {
+					if _, ok := got[id]; !ok && silent == nil {
+						// remembered, not returned: the other clauses of this damage state are still evaluated and take precedence
+						silent = &Fail{FP: "C18/damaged-column-block-drops-rows-without-an-error-in-the-answer", What: fmt.Sprintf("%s: query %q does not return %s of the damaged segment and reports no error", ctx, q, id)}
+					}
+				}
+			}
+		}
 		// rows attributed to the damaged segment: original values or absent — never altered values from a checksummed block
 		for id, rec := range got {
 			m, known := b.events[id]
@@ -287,6 +299,9 @@ func (b *c18Base) run(j *c18Job, rep *kernel.Report) (*Fail, error) {
 	}
 	if altered {
 		rep.Add("altered_from_unchecksummed_side_files", 1)
+	}
+	if silent != nil {
+		return silent, nil
 	}
 	return nil, nil
 }
